@@ -493,6 +493,9 @@ def subgraph(types: Iterable[Type], fun: Callable[..., Iterable[Var]]) -> Graph:
     Graph
         Graph with results based on the return value of `fun`.
     """
+    if isinstance(types, Iterable):
+        # A one-shot iterable (generator, map) must not be used up by the check below.
+        types = tuple(types)
     if not (
         isinstance(types, Iterable) and all(isinstance(typ, Type) for typ in types)
     ):
